@@ -89,10 +89,62 @@ def run(chk):
                          [[''.join(map(chr, k)), [''.join(map(chr, r[0])) for r in row]] for k, row in t['files']]),
                       {'boundary_hex': bnd.hex(), 'body_hex': bytes(t['body']).hex(), 'ctype': m['ctype'], 'buf': m['buf'], 'clauses': rel})
     fl.validate(chk, by_b, 'C07', {'RoundTrip'}, describe)
+    upload_window(chk, rng, thorough)
     chk.extra['assumptions'] = ['names and file names are free of double quotes and line breaks; file names are non-empty',
                                 'text fields fit the in-memory threshold (larger ones are refused by design, C13)',
                                 'the part content type of an upload is read from its headers (Header object or string)']
     chk.extra['rule'] = 'field lists (0-5 parts, text/file interleaved, duplicate names, names with ; = space backslash and non-ASCII, adversarial data) x 6 boundaries (incl. quoted) x thresholds x Content-Length/chunked framing'
+
+
+def upload_window(chk, rng, thorough):
+    """The window object through which an upload is read (BytesIOProxy): TLC-explored call sequences and random ones are
+    replayed on the real object; TLC judges every returned byte (specs/BytesProxy.tla, BytesProxyTrace.tla)."""
+    import io
+    from ombott.request_pkg.multipart import BytesIOProxy
+    ws = core.tla_workspace()
+    r = core.run_tlc(ws, 'BytesProxy', 'BytesProxy.cfg', allow_violation=True)
+    chk.add_tlc(r, 'exhaustive BytesProxy (all call sequences <= 4 on every window of a 5-byte source)')
+    if not r.ok:
+        raise core.MachineryError('model-level BytesProxy: %s' % r.violated)
+    r = core.run_tlc(ws, 'BytesProxyCover', 'BytesProxyCover.cfg', workers=1)
+    chk.add_tlc(r, 'state cover BytesProxyCover')
+    plans = [(w['st'], w['end'], 5, [(h['op'], h['a'], h['w']) for h in w['hist']]) for w in r.printed_json('W')]
+    for _ in range(3000 if thorough else 500):
+        n = rng.choice([0, 1, 7, 64, 200])
+        st = rng.randint(0, n)
+        end = rng.randint(st, n)
+        ops = []
+        for _i in range(rng.randint(1, 8)):
+            if rng.random() < 0.5:
+                ops.append(('seek', rng.randint(-5, n + 5), rng.choice([0, 0, 1, 2])))
+            else:
+                ops.append(('read', rng.choice([-1, 0, 1, 3, n + 3, rng.randint(1, max(1, n))]), 0))
+        plans.append((st, end, n, ops))
+    recs = []
+    for st, end, n, ops in plans:
+        src = io.BytesIO(bytes((i + 1) % 256 for i in range(n)))
+        px = BytesIOProxy(src, st, end)
+        out = []
+        for op, a, w in ops:
+            if op == 'seek':
+                t = px.seek(a, w)
+                out.append({'op': 'seek', 'a': a, 'w': w, 'tell': t, 'data': []})
+            else:
+                d = px.read(None if a < 0 else a)
+                out.append({'op': 'read', 'a': a, 'w': 0, 'tell': px.tell(), 'data': list(d)})
+        recs.append({'st': st, 'end': end, 'ops': out})
+        chk.count(1, ('window', st, end, n, tuple(ops)))
+    # bytes are i mod 256: keep windows below 255 so that byte value = index
+    recs = [t for t in recs if t['end'] < 255]
+    missing, fails = core.validate_records(chk, 'BytesProxyTrace', recs, 'upload window')
+    for i, cl in sorted(fails.items()):
+        t = recs[i]
+        chk.violation('C07: %s fails on the upload window [%d,%d): calls %s' % (sorted(cl), t['st'], t['end'], [(o['op'], o['a'], o['w'], o['tell'], o['data'][:8]) for o in t['ops']]),
+                      {'window': [t['st'], t['end']], 'ops': t['ops'], 'clauses': sorted(cl), 'body_hex': '', 'ctype': '', 'buf': 0, 'boundary_hex': ''})
+    drift = sorted(set(missing) - set(fails))
+    if drift:
+        t = recs[drift[0]]
+        chk.drift('C07: %d call sequences on BytesIOProxy differ from the model (first: window [%d,%d) %s)' % (len(drift), t['st'], t['end'], t['ops'][:4]))
 
 
 def replay(path):
